@@ -274,6 +274,49 @@ theorem formatReqsUnsorted_perm_invariant_counterexample : ¬ formatReqsUnsorted
   revert this
   decide
 
+/-! ### dependency cache key; `GeneratedList.depends` -/
+
+/-- the cache-key component depends only on the *set* of strings given (order and repetitions of the
+keyword's list do not matter, and no process-specific iteration order enters) -/
+theorem depIdentifierListValue_perm_invariant {l₁ l₂ : List Str} (h : ∀ x, x ∈ l₁ ↔ x ∈ l₂) :
+    depIdentifierListValue l₁ = depIdentifierListValue l₂ := sortedSet_ext h
+
+theorem depIdentifierListValue_mem (l : List Str) (x : Str) : x ∈ depIdentifierListValue l ↔ x ∈ l :=
+  mem_sortedSet l x
+
+def depIdentifierListValueUnsorted_perm_invariant_full : Prop :=
+  ∀ l₁ l₂ : List Str, l₁ ~ l₂ → depIdentifierListValueUnsorted l₁ = depIdentifierListValueUnsorted l₂
+
+/-- the defect repaired by 0cba8d8, on record: two processes, two iteration orders, two cache keys -/
+theorem depIdentifierListValueUnsorted_perm_invariant_counterexample :
+    ¬ depIdentifierListValueUnsorted_perm_invariant_full := by
+  intro h
+  have := h [['a'], ['b']] [['b'], ['a']] (Perm.swap _ _ _)
+  revert this
+  decide
+
+theorem genlistDepends_aux (acc l : List Str) (h : (acc ++ l).Nodup) :
+    l.foldl (fun acc a => if a ∈ acc then acc else acc ++ [a]) acc = acc ++ l := by
+  induction l generalizing acc with
+  | nil => simp
+  | cons x xs ih =>
+    have hx : x ∉ acc := by
+      intro hm
+      have := (nodup_append.mp h).2.2 x hm x mem_cons_self
+      exact this rfl
+    simp only [foldl_cons, hx, if_false]
+    rw [ih (acc ++ [x]) (by simpa using h)]
+    simp
+
+/-- `GeneratedList.depends` as an ordered set (089f6af): for distinct targets it is exactly the order in
+which `process()` received them — no iteration-order parameter is left in the emitter -/
+theorem genlistDepends_keeps_argument_order (added : List Str) (h : added.Nodup) :
+    genlistDepends added = added := by
+  unfold genlistDepends
+  simpa using genlistDepends_aux [] added (by simpa using h)
+
+example : genlistDepends [['c'], ['a'], ['c'], ['b']] = [['c'], ['a'], ['b']] := by decide
+
 /-! ### cached compiler checks: a reconfigure gives the verdict a fresh configuration gives -/
 
 /-- the invariant a pickling function must preserve: if the verdict only reads the projection `π` of a
